@@ -32,24 +32,26 @@ pub enum Node {
     Number(i64),
 }
 
-fn gcd(expr1: i64, expr2: i64) -> i64 {
-    let mut a = expr1;
-    let mut b = expr2;
+fn gcd(expr1: i64, expr2: i64) -> Option<i64> {
+    let mut a = expr1.unsigned_abs();
+    let mut b = expr2.unsigned_abs();
     while b != 0 {
         #[cfg(feature = "verif_hooks")]
         crate::verif_hooks::tick();
         let remainder = a % b;
-        a = expr2;
+        a = b;
         b = remainder;
     }
-    a.abs()
+    i64::try_from(a).ok()
 }
 
-fn lcm(expr1: i64, expr2: i64) -> i64 {
+fn lcm(expr1: i64, expr2: i64) -> Option<i64> {
     if expr1 == 0 || expr2 == 0 {
-        return 0;
+        return Some(0);
     }
-    (expr1 / gcd(expr1, expr2) * expr2).abs()
+    (expr1 / gcd(expr1, expr2)?)
+        .checked_mul(expr2)?
+        .checked_abs()
 }
 
 fn overflow() -> Box<dyn error::Error> {
@@ -171,14 +173,15 @@ pub fn eval(expr: Node) -> Result<i64, Box<dyn error::Error>> {
                     #[cfg(feature = "verif_hooks")]
                     crate::verif_hooks::tick();
                     let right_art = eval(arg)?;
-                    result = result
-                        .map(|left_arg| Some(gcd(left_arg, right_art)))
-                        .unwrap_or(Some(right_art));
+                    result = match result {
+                        Some(left_arg) => Some(gcd(left_arg, right_art).ok_or_else(overflow)?),
+                        None => Some(right_art),
+                    };
                 }
                 Ok(result.unwrap())
             } else {
                 match args.first() {
-                    Some(arg) => Ok(eval((*arg).clone())?),
+                    Some(arg) => eval((*arg).clone())?.checked_abs().ok_or_else(overflow),
                     None => Ok(0),
                 }
             }
@@ -190,25 +193,26 @@ pub fn eval(expr: Node) -> Result<i64, Box<dyn error::Error>> {
                     #[cfg(feature = "verif_hooks")]
                     crate::verif_hooks::tick();
                     let right_art = eval(arg)?;
-                    result = result
-                        .map(|left_arg| Some(lcm(left_arg, right_art)))
-                        .unwrap_or(Some(right_art));
+                    result = match result {
+                        Some(left_arg) => Some(lcm(left_arg, right_art).ok_or_else(overflow)?),
+                        None => Some(right_art),
+                    };
                 }
                 Ok(result.unwrap())
             } else {
                 match args.first() {
-                    Some(arg) => Ok(eval((*arg).clone())?),
+                    Some(arg) => eval((*arg).clone())?.checked_abs().ok_or_else(overflow),
                     None => Ok(0),
                 }
             }
         }
         Min(args) => {
             if args.len() > 1 {
-                let mut result = i64::MIN;
+                let mut result = i64::MAX;
                 for arg in <Vec<Node> as Clone>::clone(&args).into_iter() {
                     #[cfg(feature = "verif_hooks")]
                     crate::verif_hooks::tick();
-                    result = eval(arg).unwrap().min(result);
+                    result = eval(arg)?.min(result);
                 }
                 Ok(result)
             } else {
@@ -220,11 +224,11 @@ pub fn eval(expr: Node) -> Result<i64, Box<dyn error::Error>> {
         }
         Max(args) => {
             if args.len() > 1 {
-                let mut result = i64::MAX;
+                let mut result = i64::MIN;
                 for arg in <Vec<Node> as Clone>::clone(&args).into_iter() {
                     #[cfg(feature = "verif_hooks")]
                     crate::verif_hooks::tick();
-                    result = eval(arg).unwrap().max(result);
+                    result = eval(arg)?.max(result);
                 }
                 Ok(result)
             } else {
@@ -235,26 +239,26 @@ pub fn eval(expr: Node) -> Result<i64, Box<dyn error::Error>> {
             }
         }
         Avg(args) => {
-            let mut result = 0;
+            let mut result: i128 = 0;
             for arg in <Vec<Node> as Clone>::clone(&args).into_iter() {
                 #[cfg(feature = "verif_hooks")]
                 crate::verif_hooks::tick();
-                result += eval(arg).unwrap();
+                result += eval(arg)? as i128;
             }
-            let len = args.len() as i64;
-            Ok(result / len)
+            let len = args.len() as i128;
+            Ok((result / len) as i64)
         }
         Med(args) => {
             let mut results = vec![];
             for arg in <Vec<Node> as Clone>::clone(&args).into_iter() {
                 #[cfg(feature = "verif_hooks")]
                 crate::verif_hooks::tick();
-                results.push(eval(arg).unwrap());
+                results.push(eval(arg)?);
             }
             results.sort_by(|a, b| a.partial_cmp(b).unwrap());
             let len = results.len();
             if len % 2 == 0 {
-                Ok((results[len >> 1] + results[(len >> 1) - 1]) / 2)
+                Ok(((results[len >> 1] as i128 + results[(len >> 1) - 1] as i128) / 2) as i64)
             } else {
                 Ok(results[len >> 1])
             }
